@@ -132,8 +132,30 @@ class ReVal(object):
             return [(st, "val", tuple(r) if isinstance(r, list) else r)]
         if name in ("match", "search", "fullmatch") and all(isinstance(a, (str, int)) for a in args) and not kwargs:
             m = getattr(self.rx, name)(*args)
-            return [(st, "val", None if m is None else Top("re.Match", False, truth=True))]
+            return [(st, "val", None if m is None else ReMatch(m))]
         return [(st, "val", Top("re.%s(%s)" % (name, self.rx.pattern), all(not isinstance(a, Top) or a.input for a in args)))]
+
+
+class ReMatch(object):
+    """result of a folded match: group()/groups()/groupdict()/start()/end()/span() fold too"""
+    abs_type = "Match"
+
+    def __init__(self, m):
+        self.m = m
+
+    def __repr__(self):
+        return "match(%r)" % (self.m.group(0),)
+
+    def abs_truth(self):
+        return True
+
+    def abs_call(self, it, st, name, args, kwargs, node):
+        if name in ("group", "groups", "groupdict", "start", "end", "span") and all(isinstance(a, (str, int)) for a in args) and not kwargs:
+            r = getattr(self.m, name)(*args)
+            if isinstance(r, dict):
+                return [(st, "val", st.alloc(HObj("dict", kind="dict", items=list(r.items()))))]
+            return [(st, "val", r)]
+        return [(st, "val", Top("match." + name, False))]
 
 
 def fold_regex_call(self, name, args, kwargs):
@@ -150,10 +172,33 @@ def fold_regex_call(self, name, args, kwargs):
             return tuple(r) if isinstance(r, list) else r
         if fn in ("match", "search", "fullmatch"):
             m = getattr(re, fn)(*args)
-            return None if m is None else Top("re.Match", False, truth=True)
+            return None if m is None else ReMatch(m)
     except re.error:
         return KeyError
     return KeyError
+
+
+def fold_regex_const(self, node, mod):
+    """NAME = re.compile(<constants>[, re.FLAG | ...]) as a module or class constant -> ReVal, else KeyError"""
+    import re
+    if not getattr(self, "fold_regex", False) or not isinstance(node, ast.Call) or node.keywords:
+        return KeyError
+    fn = self.ix.resolve_expr(mod, node.func)
+    if not (isinstance(fn, tuple) and fn[0] == "ext" and fn[1] == "re.compile"):
+        return KeyError
+
+    def flag(e):
+        if isinstance(e, ast.BinOp) and isinstance(e.op, ast.BitOr):
+            return flag(e.left) | flag(e.right)
+        r = self.ix.resolve_expr(mod, e)
+        if isinstance(r, tuple) and r[0] == "ext" and r[1].startswith("re.") and hasattr(re, r[1][3:]):
+            return int(getattr(re, r[1][3:]))
+        return self.ix.fold(e, mod)
+    try:
+        cargs = [self.ix.fold(node.args[0], mod)] + [flag(a) for a in node.args[1:]]
+    except NotConst:
+        return KeyError
+    return fold_regex_call(self, "re.compile", cargs, {})
 
 
 def call_external(self, st, name, args, kwargs, node):
